@@ -243,6 +243,28 @@ def _state_followups(space, r, part, key, memo):
                 part.fail(f"replace:raised:{type(e).__name__}", case, str(e)[:200])
                 continue
             check_meta(space, q, part, "meta:replace", case, memo)
+    # replace inside a node that carries annotations of its own (make_like must not copy the old node's metadata)
+    if not r.is_leaf():
+        for an in ANNOS[1:]:
+            try:
+                q0 = r.annotate(an)
+            except Exception:  # noqa: BLE001
+                continue
+            for old in leaves:
+                new = (space.bvs[1] if old is space.bvs[0] else space.bvs[0]) if isinstance(old, claripy.ast.BV) else claripy.Not(old)
+                for new_ in (new, claripy.BVV(1 & mask(space.w), space.w) if isinstance(old, claripy.ast.BV) else claripy.true()):
+                    part.count("transitions")
+                    part.count("followup_replace_annotated")
+                    case = f"{origin}|annotate:{an.tag}|replace:{show(old)}->{show(new_)}"
+                    try:
+                        q = claripy.replace(q0, old, new_)
+                    except ClaripyError:
+                        part.count("followup_raised")
+                        continue
+                    except Exception as e:  # noqa: BLE001
+                        part.fail(f"replace:raised:{type(e).__name__}", case, str(e)[:200])
+                        continue
+                    check_meta(space, q, part, "meta:replace-annotated", case, memo)
     if len(space.bvs) >= 2:
         part.count("transitions")
         x, y = space.bvs[0], space.bvs[1]
@@ -372,6 +394,40 @@ def monitor(space, tr, part, opts):
     return r
 
 
+def _chain_job(item):
+    """flattening / cancellation rewrites need chains: ((a op b) op c) op d over operands that share variables"""
+    import operator
+
+    w, opname = item
+    part = Part()
+    space = exprspace.Space(w)
+    memo = {}
+    x, y = space.bvs
+    pool = [x, y, x + y, x & y, x ^ y, ~x, claripy.BVV(0, w), claripy.BVV(mask(w), w), x + 1]
+    f = {"xor": operator.xor, "and": operator.and_, "or": operator.or_, "add": operator.add, "mul": operator.mul, "sub": operator.sub}[opname]
+    import itertools
+
+    for n in (3, 4):
+        for tup in itertools.product(pool, repeat=n):
+            for assoc in ("left", "right"):
+                part.count("transitions", n - 1)
+                part.count("chain_constructions")
+                try:
+                    if assoc == "left":
+                        e = tup[0]
+                        for t in tup[1:]:
+                            e = f(e, t)
+                    else:
+                        e = tup[-1]
+                        for t in reversed(tup[:-1]):
+                            e = f(t, e)
+                except Exception:  # noqa: BLE001
+                    continue
+                check_meta(space, e, part, f"meta:chain:{opname}", f"w={w}|chain:{opname}:{assoc}|" + "|".join(show(t) for t in tup), memo)
+    part.sample({"w": w, "chain_op": opname, "operands": len(pool)}, limit=1)
+    return part.dump()
+
+
 def run(tier: str) -> int:
     rep = Report(
         PID,
@@ -388,6 +444,10 @@ def run(tier: str) -> int:
     else:
         cfgs = [dict(w=1, depth=3), dict(w=2, depth=3), dict(w=3, depth=2), dict(w=4, depth=2, full=False)]
     exprspace.run_e1(rep, "mc.checks.c05:monitor", cfgs)
+    from ..common import pmap
+
+    for res in pmap(_chain_job, [(w, o) for w in ((2,) if tier == "quick" else (2, 3)) for o in ("xor", "and", "or", "add", "mul", "sub")]):
+        rep.merge(res)
     rep.assumptions = [
         "variables may over-approximate (superset) – only missing variables are failures",
         "width/depth recomputation covers the BV/Bool operator set of E1; FP/string metadata is exercised by C02/C03/C18",
